@@ -302,26 +302,40 @@ func (h H) snapshotFallback(rule string) {
 		v := r.Results[0]
 		site := fmt.Sprintf("(*replication).replicate return#%d", k+1)
 		if phi, ok := v.(*ssa.Phi); ok {
-			for i, e := range phi.Edges {
-				if !suspicious(e) {
-					continue
+			// merged values, also merges of merges (a helper's result variable)
+			seenPhi := map[*ssa.Phi]bool{}
+			var unfold func(phi *ssa.Phi, d int)
+			unfold = func(phi *ssa.Phi, d int) {
+				if seenPhi[phi] || d > 4 {
+					return
 				}
-				n++
-				pred := phi.Block().Preds[i]
-				last := pred.Instrs[len(pred.Instrs)-1]
-				res := fi.MustCrossAtom(last, notFound(fi.Sym(e).String()))
-				// the edge into the phi may itself be the != edge
-				if !res.OK {
-					for si, sc := range pred.Succs {
-						if sc == phi.Block() {
-							if a, okA := fi.EdgeAtom(core.Edge{From: pred, Succ: si}); okA && a.Implies(notFound(fi.Sym(e).String())) {
-								res.OK = true
+				seenPhi[phi] = true
+				for i, e := range phi.Edges {
+					if inner, isPhi := e.(*ssa.Phi); isPhi {
+						unfold(inner, d+1)
+						continue
+					}
+					if !suspicious(e) {
+						continue
+					}
+					n++
+					pred := phi.Block().Preds[i]
+					last := pred.Instrs[len(pred.Instrs)-1]
+					res := fi.MustCrossAtom(last, notFound(fi.Sym(e).String()))
+					// the edge into the phi may itself be the != edge
+					if !res.OK {
+						for si, sc := range pred.Succs {
+							if sc == phi.Block() {
+								if a, okA := fi.EdgeAtom(core.Edge{From: pred, Succ: si}); okA && a.Implies(notFound(fi.Sym(e).String())) {
+									res.OK = true
+								}
 							}
 						}
 					}
+					h.C.Check(rule+" not-found-never-returned", site, res.OK, h.pos(r), "replicate can return log.ErrNotFound (entry compacted) instead of installing a snapshot: "+res.Witness)
 				}
-				h.C.Check(rule+" not-found-never-returned", site, res.OK, h.pos(r), "replicate can return log.ErrNotFound (entry compacted) instead of installing a snapshot: "+res.Witness)
 			}
+			unfold(phi, 0)
 			continue
 		}
 		if suspicious(v) {
